@@ -2563,6 +2563,281 @@ theorem history_nodup : ∀ (ops : List Op) (h : MHeap), Inv h → AllProved ops
 theorem nodup_from_empty (ops : List Op) (hp : AllProved ops) : NodupHeap (heapAfter [] ops) :=
   history_nodup ops [] inv_nil hp (fun a o h => by simp at h)
 
+/-! ## global bindings: declaration binding instantiation (§10.5) on the global object -/
+
+theorem inv_single (g : MObj) (hw : WFObj g) (hp : g.proto = none) : Inv [g] := by
+  constructor
+  · intro a o h
+    cases a with
+    | zero => simp at h; subst h; exact hw
+    | succ a => simp at h
+  · intro a o p h hq
+    cases a with
+    | zero => simp at h; subst h; rw [hp] at hq; cases hq
+    | succ a => simp at h
+
+theorem headD_absHeap (h : MHeap) (g : MObj) : (absHeap h).headD (absObj g) = absObj (h.headD g) := by
+  cases h <;> rfl
+
+theorem headD_of_get (h : MHeap) (g o : MObj) (ho : h[0]? = some o) : h.headD g = o := by
+  cases h with
+  | nil => simp at ho
+  | cons x t => simp at ho; subst ho; rfl
+
+/-- a step on the one-object heap `[g]` (g the global object): the object at 0 afterwards -/
+theorem single_step (g : MObj) (op : Op) (hw : WFObj g) (hp : g.proto = none) (hop : provedOp op = true) :
+    WFObj ((step [g] op).1.headD g) ∧ ((step [g] op).1.headD g).proto = none := by
+  have hi := inv_single g hw hp
+  obtain ⟨he, hv⟩ := step_evolves [g] op hi hop
+  obtain ⟨o', ho', hev⟩ := he 0 g rfl
+  rw [headD_of_get _ g o' ho']
+  exact ⟨hv.1 0 o' ho', hev.proto.trans hp⟩
+
+/-- SetMutableBinding on the global object -/
+theorem gSet_refines (g : MObj) (v : Val) (hw : WFObj g) (hp : g.proto = none) :
+    (absObj (gSet g v).1, (gSet g v).2) = Spec.gSet (absObj g) v ∧ WFObj (gSet g v).1 ∧ (gSet g v).1.proto = none := by
+  have hi := inv_single g hw hp
+  have hr := put_refines [g] false 0 0 v hi rfl
+  have hs := single_step g (.put false 0 0 v) hw hp rfl
+  simp only [StepRefines, step] at hr hs
+  have habs : absHeap [g] = [absObj g] := rfl
+  rw [habs] at hr
+  simp only [gSet, Spec.gSet, Spec.step] at hr ⊢
+  obtain ⟨h1, h2⟩ := hr
+  exact ⟨by rw [← h1, headD_absHeap, ← h2], hs.1, hs.2⟩
+
+theorem gHas_abs (g : MObj) : Spec.gHas (absObj g) = gHas g := by
+  simp [Spec.gHas, gHas, absObj, alookup_absProps]
+
+theorem modeC (c : Bool) : (if c then Trit.on else Trit.off) = (if c then Trit.on else Trit.off) := rfl
+
+/-- CreateMutableBinding for a name that is absent: the concrete result on both sides -/
+theorem gCreate_absent (g : MObj) (c : Bool) (v : Val) (hl : alookup 0 g.props = none) :
+    gCreate g c v = (if g.ext then { g with props := aupsert 0 ⟨.val v, ⟨.on, .on, if c then .on else .off⟩⟩ g.props } else g) := by
+  simp only [gCreate, defineOwn_eq, hl, createProp]
+  cases g.ext <;> rfl
+
+theorem sgCreate_absent (g : SObj) (c : Bool) (hl : alookup 0 g.props = none) :
+    Spec.gCreate g c = (if g.ext then { g with props := aupsert 0 (.data 0 true true c) g.props } else g) := by
+  simp only [Spec.gCreate, sDefineOwn_eq, hl, sCreateProp]
+  cases g.ext <;> simp [Spec.isGenericDescriptor, Spec.isDataDescriptor, Spec.isAccessorDescriptor, noPD]
+
+theorem alookup_aupsert_self {α} (n : Name) (x : α) (l : List (Name × α)) : alookup n (aupsert n x l) = some x := by
+  simp [alookup_aupsert]
+
+theorem aupsert_aupsert {α} (n : Name) (x y : α) (l : List (Name × α)) : aupsert n y (aupsert n x l) = aupsert n y l := by
+  induction l with
+  | nil => simp [aupsert]
+  | cons kp t ih =>
+    obtain ⟨k, q⟩ := kp
+    by_cases hk : k = n
+    · subst hk; simp [aupsert]
+    · simp [aupsert, hk, ih]
+
+/-- creating the binding with the function value at once (otto) = CreateMutableBinding(undefined) followed
+    by SetMutableBinding (ES5 §10.5 steps 5.d, 5.f) -/
+theorem gCreateFn_refines (g : MObj) (c : Bool) (hl : alookup 0 g.props = none) (hp : g.proto = none) :
+    (absObj (gCreate g c fnVal), ([] : List Call)) = Spec.gSet (Spec.gCreate (absObj g) c) fnVal := by
+  have hl' : alookup 0 (absObj g).props = none := by simp [absObj, alookup_absProps, hl]
+  rw [gCreate_absent g c fnVal hl, sgCreate_absent (absObj g) c hl']
+  obtain ⟨proto, ext, props⟩ := g
+  simp only at hp hl
+  subst hp
+  cases ext with
+  | false =>
+    simp only [absObj] at hl' ⊢
+    simp [Spec.gSet, Spec.put, Spec.canPut, hl', rejectOutcome]
+  | true =>
+    simp only [absObj] at hl' ⊢
+    simp only [if_true, Bool.true_eq]
+    simp [Spec.gSet, Spec.put, Spec.canPut, alookup_aupsert_self, sDefineOwn_eq, sDefineProp, allAbsent, subsumed, fieldSame, ofProp,
+      noPD, SProp.configurable, validate, Spec.isGenericDescriptor, Spec.isDataDescriptor, Spec.isAccessorDescriptor, SProp.isData,
+      applyFields, aupsert_aupsert, absProps_aupsert, absProp, tb, fnVal]
+    cases c <;> simp [tb]
+
+theorem gCreate_wf (g : MObj) (c : Bool) (v : Val) (hw : WFObj g) (hp : g.proto = none) :
+    WFObj (gCreate g c v) ∧ (gCreate g c v).proto = none := by
+  simp only [gCreate]
+  cases hm : defineOwn g 0 ⟨.val v, ⟨.on, .on, if c then .on else .off⟩⟩ with
+  | none => exact ⟨hw, hp⟩
+  | some o' =>
+    exact ⟨defineOwn_wf g o' 0 _ hw (by simp [WFDescW]) hm, (defineOwn_shape g o' 0 _ hm).1.trans hp⟩
+
+theorem gCreateVar_refines (g : MObj) (c : Bool) (hl : alookup 0 g.props = none) :
+    absObj (gCreate g c 0) = Spec.gCreate (absObj g) c := by
+  have hl' : alookup 0 (absObj g).props = none := by simp [absObj, alookup_absProps, hl]
+  rw [gCreate_absent g c 0 hl, sgCreate_absent (absObj g) c hl']
+  obtain ⟨proto, ext, props⟩ := g
+  cases ext <;> cases c <;> simp [absObj, absProps_aupsert, absProp, tb]
+
+/-- an assignment to an unbound name creates a deletable binding = [[Put]] on the global object -/
+theorem gAssignNew_refines (g : MObj) (v : Val) (hl : alookup 0 g.props = none) (hp : g.proto = none) :
+    (absObj (gCreate g true v), ([] : List Call)) = Spec.gSet (absObj g) v := by
+  have hl' : alookup 0 (absObj g).props = none := by simp [absObj, alookup_absProps, hl]
+  rw [gCreate_absent g true v hl]
+  obtain ⟨proto, ext, props⟩ := g
+  simp only at hp hl
+  subst hp
+  simp only [absObj] at hl' ⊢
+  cases ext with
+  | false => simp [Spec.gSet, Spec.put, Spec.canPut, hl', rejectOutcome, Spec.getProperty, fuel]
+  | true =>
+    simp [Spec.gSet, Spec.put, Spec.canPut, hl', Spec.getProperty, fuel, sDefineOwn_eq, sCreateProp, noPD,
+      Spec.isGenericDescriptor, Spec.isDataDescriptor, Spec.isAccessorDescriptor, absProps_aupsert, absProp, tb]
+
+theorem lookup_abs0 (g : MObj) : alookup 0 (absObj g).props = (alookup 0 g.props).map absProp := by
+  simp [absObj, alookup_absProps]
+
+/-- **every global-binding operation refines ES5 §10.5 / §8.7.2 / §11.4.1** and keeps the global
+    object well formed -/
+theorem gStep_refines (g : MObj) (op : GOp) (hw : WFObj g) (hp : g.proto = none) :
+    (absObj (gStep g op).1, (gStep g op).2) = Spec.gStep (absObj g) op ∧
+    WFObj (gStep g op).1 ∧ (gStep g op).1.proto = none := by
+  have hi := inv_single g hw hp
+  have habs : absHeap [g] = [absObj g] := rfl
+  cases op with
+  | assign v =>
+    simp only [gStep, Spec.gStep]
+    cases hl : alookup 0 g.props with
+    | none =>
+      have hh : gHas g = false := by simp [gHas, hl]
+      simp only [hh, Bool.not_false, if_true]
+      have := gAssignNew_refines g v hl hp
+      obtain ⟨w1, w2⟩ := gCreate_wf g true v hw hp
+      refine ⟨?_, w1, w2⟩
+      rw [← this]
+    | some p =>
+      have hh : gHas g = true := by simp [gHas, hl]
+      simp only [hh, Bool.not_true, Bool.false_eq_true, if_false]
+      obtain ⟨s1, s2, s3⟩ := gSet_refines g v hw hp
+      refine ⟨?_, s2, s3⟩
+      rw [← s1]
+  | varDecl eval =>
+    simp only [gStep, Spec.gStep, gHas_abs]
+    cases hl : alookup 0 g.props with
+    | none =>
+      have hh : gHas g = false := by simp [gHas, hl]
+      simp only [hh, Bool.not_false, if_true]
+      obtain ⟨w1, w2⟩ := gCreate_wf g eval 0 hw hp
+      exact ⟨by rw [gCreateVar_refines g eval hl], w1, w2⟩
+    | some p =>
+      have hh : gHas g = true := by simp [gHas, hl]
+      simp only [hh, Bool.not_true, Bool.false_eq_true, if_false]
+      refine ⟨?_, hw, hp⟩
+      first | rfl | trivial
+  | varInit v =>
+    simp only [gStep, Spec.gStep, gHas_abs]
+    cases hl : alookup 0 g.props with
+    | none =>
+      have hh : gHas g = false := by simp [gHas, hl]
+      simp only [hh, Bool.not_false, if_true]
+      obtain ⟨w1, w2⟩ := gCreate_wf g false 0 hw hp
+      obtain ⟨s1, s2, s3⟩ := gSet_refines (gCreate g false 0) v w1 w2
+      refine ⟨?_, s2, s3⟩
+      rw [← gCreateVar_refines g false hl, ← s1]
+    | some p =>
+      have hh : gHas g = true := by simp [gHas, hl]
+      simp only [hh, Bool.not_true, Bool.false_eq_true, if_false]
+      obtain ⟨s1, s2, s3⟩ := gSet_refines g v hw hp
+      refine ⟨?_, s2, s3⟩
+      rw [← s1]
+  | funDecl eval =>
+    simp only [gStep, Spec.gStep, lookup_abs0]
+    cases hl : alookup 0 g.props with
+    | none =>
+      simp only [Option.map_none]
+      obtain ⟨w1, w2⟩ := gCreate_wf g eval fnVal hw hp
+      refine ⟨?_, w1, w2⟩
+      have := gCreateFn_refines g eval hl hp
+      simp only [← this]
+    | some existing =>
+      simp only [Option.map_some, configurable_abs]
+      have hwe := hw _ (alookup_mem hl)
+      cases hc : existing.configurable with
+      | true =>
+        simp only [if_true]
+        have hd : WFDesc (⟨.val 0, ⟨.on, .on, if eval then .on else .off⟩⟩ : MProp) := trivial
+        have hr := defineOwnProperty_refines g 0 _ hw hd
+        have e : absDesc (⟨.val 0, ⟨.on, .on, if eval then .on else .off⟩⟩ : MProp) =
+            { noPD with value := some 0, writable := some true, enumerable := some true, configurable := some eval } := by
+          cases eval <;> rfl
+        rw [e] at hr
+        rw [← hr]
+        cases hm : defineOwn g 0 ⟨.val 0, ⟨.on, .on, if eval then .on else .off⟩⟩ with
+        | none => exact ⟨rfl, hw, hp⟩
+        | some g1 =>
+          simp only [Option.map_some]
+          have w1 := defineOwn_wf g g1 0 _ hw (WFDesc.weak hd) hm
+          have w2 := (defineOwn_shape g g1 0 _ hm).1.trans hp
+          obtain ⟨s1, s2, s3⟩ := gSet_refines g1 fnVal w1 w2
+          refine ⟨?_, s2, s3⟩
+          rw [← s1]
+      | false =>
+        simp only [Bool.false_eq_true, if_false]
+        obtain ⟨ev, ⟨w, e, c⟩⟩ := existing
+        cases ev with
+        | nil => exact hwe.elim
+        | val pv =>
+          cases w <;> cases e <;>
+            simp only [absProp, tb, MProp.isAccessorDescriptor, writable_eq, enumerable_eq, Bool.false_or, Bool.not_true,
+              Bool.not_false, Bool.or_false, Bool.or_true, Bool.false_eq_true, if_false, if_true] <;>
+            first
+            | exact ⟨trivial, hw, hp⟩
+            | exact ⟨rfl, hw, hp⟩
+            | (obtain ⟨s1, s2, s3⟩ := gSet_refines g fnVal hw hp
+               exact ⟨by rw [← s1], s2, s3⟩)
+        | gs gg ss =>
+          have hwu : w = .unset := hwe.2.2
+          subst hwu
+          simp only [absProp, tb, MProp.isAccessorDescriptor, writable_eq, Bool.not_false, Bool.or_true, Bool.true_or, if_true]
+          refine ⟨?_, hw, hp⟩
+          first | rfl | trivial
+  | del =>
+    simp only [gStep, Spec.gStep]
+    have hr := delete_refines [g] false 0 0 rfl
+    have hs := single_step g (.del false 0 0) hw hp rfl
+    simp only [StepRefines, step, Spec.step, habs] at hr hs
+    obtain ⟨h1, h2⟩ := hr
+    refine ⟨?_, hs.1, hs.2⟩
+    rw [← h1, headD_absHeap, ← h2]
+  | defn d =>
+    simp only [gStep, Spec.gStep]
+    have hr := (defn_refines [g] 0 0 d hi).1
+    have hs := single_step g (.defn 0 0 d) hw hp rfl
+    simp only [StepRefines, habs] at hr hs
+    obtain ⟨h1, h2⟩ := hr
+    refine ⟨?_, hs.1, hs.2⟩
+    rw [← h1, headD_absHeap, ← h2]
+
+/-- **global-binding histories refine ES5**: any sequence of programs doing identifier assignment,
+    `var` / function declarations (global or eval code), `delete` and defineProperty on one global name gives
+    the ES5 outcome (incl. TypeError), setter calls and the ES5 descriptor / value after every program -/
+theorem gRun_refines : ∀ (ops : List GOp) (g : MObj), WFObj g → g.proto = none →
+    gRun g ops = Spec.gRun (absObj g) ops := by
+  intro ops
+  induction ops with
+  | nil => intro g _ _; rfl
+  | cons op ops ih =>
+    intro g hw hp
+    obtain ⟨h1, h2, h3⟩ := gStep_refines g op hw hp
+    have hobs : gObserve (gStep g op).1 = Spec.gObserve (absObj (gStep g op).1) := by
+      simp only [gObserve, Spec.gObserve]
+      exact (observeName_refines [(gStep g op).1] 0 (gStep g op).1 h2 0).symm
+    simp only [gRun, Spec.gRun]
+    have e1 : (Spec.gStep (absObj g) op).1 = absObj (gStep g op).1 := by rw [← h1]
+    have e2 : (Spec.gStep (absObj g) op).2 = (gStep g op).2 := by rw [← h1]
+    rw [e1, e2, ← hobs, ih _ h2 h3]
+
+theorem gRun_refines_empty (ops : List GOp) : gRun ⟨none, true, []⟩ ops = Spec.gRun ⟨none, true, []⟩ ops :=
+  gRun_refines ops ⟨none, true, []⟩ (fun kp h => by cases h) rfl
+
+/-- not vacuous, and the formerly deviating histories now agree: `x = 1; function x(){}; delete x`,
+    `eval('var x'); delete x` -/
+example : gRun ⟨none, true, []⟩ [.assign 4, .funDecl false, .del] = Spec.gRun ⟨none, true, []⟩ [.assign 4, .funDecl false, .del] :=
+  gRun_refines_empty _
+example : ((gRun ⟨none, true, []⟩ [.assign 4, .funDecl false, .del])[2]?).map (·.1) = some (.bool false) := by decide
+example : ((gRun ⟨none, true, []⟩ [.varDecl true, .del])[1]?).map (·.1) = some (.bool true) := by decide
+
 /-! ## Non-vacuity of the hypotheses -/
 
 /-- a heap with a data and an accessor property … -/
@@ -2642,11 +2917,6 @@ example : run [] wBothUndef = Spec.run [] wBothUndef := history_refines wBothUnd
 /-- closed (cb72f5e): `p={a:1}; c=Object.create(p); c.a=2; for (k in c)` visits `a` once -/
 def wForIn : List Op := [.create none [], .put false 0 0 4, .create (some 0) [], .put false 1 0 5]
 example : run [] wForIn = Spec.run [] wForIn := history_refines wForIn (allProved_of_decide _ (by decide)) (by decide)
-
-/-- `new Error('m')` has an own `name` property (ES5 15.11: only inherited) -/
-def wErrName : List Op := [.native .err]
-example : run [] wErrName ≠ Spec.run [] wErrName := by decide
-example : devRun [] wErrName = ["error_own_name"] := by decide
 
 /-- start objects of the proved kinds: a function's prototype object, deleted constructor, sealed -/
 def hNV3 : List Op := [.native .fproto, .del false 0 3, .native .regexp, .put false 1 10 5, .seal 0, .native .date, .freeze 2]
